@@ -446,3 +446,35 @@ def value_uses(e: ast.AST, name: str) -> int:
         if isinstance(x, ast.Name) and x.id == name and isinstance(x.ctx, ast.Load) and id(x) not in meta:
             n += 1
     return n
+
+
+def specialise_defaults(fi: FunctionInfo, keep=()) -> FunctionInfo:
+    """A twin of `fi` in which every parameter *not* in `keep` that has a constant default and is never re-bound in the body is replaced by that
+    default, and the normal form is re-established (so `np.copy(self.data, order=order)` with `order="K"` becomes `np.copy(self.data)`).  A rule that
+    states what a function does for the parameters it names is judged on this twin: a new keyword whose default reproduces today's behaviour is
+    invisible to it.  The project is untouched."""
+    import copy as _copy
+    from ..inline import clone
+    from ..normal import renormalise_function
+    fn = fi.node
+    a = fn.args
+    pos = a.posonlyargs + a.args
+    pairs = list(zip(pos[len(pos) - len(a.defaults):], a.defaults)) + [(p, d) for p, d in zip(a.kwonlyargs, a.kw_defaults) if d is not None]
+    stored = {n.id for n in ast.walk(fn) if isinstance(n, ast.Name) and isinstance(n.ctx, (ast.Store, ast.Del))}
+    sub = {p.arg: d for p, d in pairs if p.arg not in keep and isinstance(d, ast.Constant) and p.arg not in stored}
+    if not sub:
+        return fi
+    twin = _copy.copy(fi)
+    twin.node = clone(fn)
+
+    class S(ast.NodeTransformer):
+        def visit_Name(self, node):
+            if isinstance(node.ctx, ast.Load) and node.id in sub:
+                return ast.copy_location(ast.Constant(value=sub[node.id].value), node)
+            return node
+    twin.node.body = [S().visit(b) for b in twin.node.body]
+    renormalise_function(twin.node)
+    for n in ast.walk(twin.node):
+        for ch in ast.iter_child_nodes(n):
+            ch._parent = n  # type: ignore[attr-defined]
+    return twin
